@@ -7,7 +7,7 @@ EXPLANATION = ("R14.1 pause guard on every success path of Open/Close/Deposit/Wi
                "R14.2 vAMM open guard in SwapInput/SwapOutput/SettleFunding; R14.3 registered-and-open guard (insurance-fund registry "
                "membership of msg.vamm and that vAMM's open flag) in Open/Liquidate/Withdraw/PayFunding; R14.4 registry push guarded by "
                "duplicate and capacity (=3) tests on the same item the membership query reads; R14.5 shutdown only sends SetOpen{false} "
-               "to vAMMs whose status was just read as open (or the callee is idempotent).")
+               "to vAMMs whose status was just read as open (or the callee is idempotent). R14.5 also: the registry is read whole (limit = capacity constant).")
 NOT_DECIDED = ("ClosePosition on a closed vAMM fails through the vAMM's own open guard (R14.2) when the swap is dispatched; that "
                "cross-contract consequence is by R14.2 + C08, not re-derived here.")
 
